@@ -4212,3 +4212,93 @@ B("C17-failed-spawn-not-given-back", "C17", "C17:R-C17.4:worker_pool::WorkerPool
   """                    .inspect_err(|e| {
                         log::error!("Could not spawn worker thread: {e:?}");
                     })""")
+
+# ---- sweep batch 4 (statement swaps, literal bumps): the survivors that mattered, as regression mutants
+B("SWP-C05-close-releases-two", "C05", "C05:R-C05.11:snapshot_tracker::SnapshotTracker::close_raw:unregisters-exactly-one", TRACKER,
+  "        self.data.alter(&instant, |_, v| v.saturating_sub(1));", "        self.data.alter(&instant, |_, v| v.saturating_sub(2));")
+B("SWP-C05-first-registration-counts-two", "C05", "C05:R-C05.11:snapshot_tracker::SnapshotTracker::open:registers-exactly-one", TRACKER,
+  """            .and_modify(|x| {
+                *x += 1;
+            })
+            .or_insert(1);
+
+        SnapshotNonce::new(seqno, self.clone())""",
+  """            .and_modify(|x| {
+                *x += 1;
+            })
+            .or_insert(2);
+
+        SnapshotNonce::new(seqno, self.clone())""")
+B("SWP-C05-clone-adds-two", "C05", "C05:R-C05.11:snapshot_tracker::SnapshotTracker::clone_snapshot:registers-exactly-one", TRACKER,
+  """            .and_modify(|x| {
+                *x += 1;
+            })
+            .or_insert(1);
+
+        SnapshotNonce::new(nonce.instant, self.clone())""",
+  """            .and_modify(|x| {
+                *x += 2;
+            })
+            .or_insert(1);
+
+        SnapshotNonce::new(nonce.instant, self.clone())""")
+B("SWP-C01-len-starts-at-one", "C01", "C01:R-C01.9:readable::Readable::len:len-starts-at-zero", "src/readable.rs",
+  "        let mut count = 0;", "        let mut count = 1;")
+B("SWP-C03-reader-starts-at-one", "C03", "C03:R-C03.19:journal::reader::JournalReader::new:starts-with-nothing-verified", "src/journal/reader.rs",
+  "            last_valid_pos: 0,", "            last_valid_pos: 1,")
+B("SWP-C03-batch-reader-starts-owing-an-item", "C03", "C03:R-C03.19:journal::batch_reader::JournalBatchReader::new:starts-with-nothing-verified", BRD,
+  "            batch_counter: 0,", "            batch_counter: 1,")
+B("SWP-C17-guard-subtracts-two", "C17", "C17:R-C17.4:<worker_pool::ThreadCounterGuard as std::ops::Drop>::drop:a-leaving-worker-takes-back-exactly-one", WP,
+  "        self.0.fetch_sub(1, std::sync::atomic::Ordering::Relaxed);", "        self.0.fetch_sub(2, std::sync::atomic::Ordering::Relaxed);")
+B("SWP-C09-root-folder-synced-first", "C09", "C09:R-C09.4:db::Database::create_new:marker-folder-is-synced-last", DB,
+  """        fsync_directory(&keyspaces_folder_path)?;
+        fsync_directory(&config.path)?;""",
+  """        fsync_directory(&config.path)?;
+        fsync_directory(&keyspaces_folder_path)?;""")
+B("SWP-C15-start-marker-appended-to-stale-buffer", "C15", "C15:R-C15.15:journal::writer::Writer::write_raw:write_start", WRITER,
+  """        let mut byte_count = 0;
+
+        self.buf.clear();
+        byte_count += self.write_start(1, seqno)?;
+        self.buf.clear();
+
+        serialize_marker_item(""",
+  """        let mut byte_count = 0;
+
+        byte_count += self.write_start(1, seqno)?;
+        self.buf.clear();
+        self.buf.clear();
+
+        serialize_marker_item(""")
+B("SWP-C15-item-appended-to-start-marker", "C15", "C15:R-C15.15:journal::writer::Writer::write_clear:write_all", WRITER,
+  """        byte_count += self.write_start(1, seqno)?;
+        self.buf.clear();
+
+        Entry::Clear { keyspace_id }.encode_into(&mut self.buf)?;""",
+  """        byte_count += self.write_start(1, seqno)?;
+
+        Entry::Clear { keyspace_id }.encode_into(&mut self.buf)?;""")
+E("EQ-C15-clear-and-finish-commute", WRITER,
+  """        self.buf.clear();
+        let checksum = hasher.finish();
+        byte_count += self.write_end(checksum)?;
+
+        Ok(byte_count)
+    }
+
+    pub(crate) fn write_clear(""",
+  """        let checksum = hasher.finish();
+        self.buf.clear();
+        byte_count += self.write_end(checksum)?;
+
+        Ok(byte_count)
+    }
+
+    pub(crate) fn write_clear(""", props=["C15", "C03", "C02", "C13"])
+E("EQ-C15-hash-before-write", WRITER,
+  """        Entry::Clear { keyspace_id }.encode_into(&mut self.buf)?;
+        self.file.write_all(&self.buf)?;
+        hasher.update(&self.buf);""",
+  """        Entry::Clear { keyspace_id }.encode_into(&mut self.buf)?;
+        hasher.update(&self.buf);
+        self.file.write_all(&self.buf)?;""", props=["C15", "C03", "C02", "C13"])
